@@ -65,7 +65,7 @@ def r10a(ck, prog):
                 if pw or mode in ("write", "rmw"):
                     ck.violation("R10a", "R10a/%s/gaps-write" % name, where,
                                  "%s writes gap counts directly while aligning" % name, prog.config)
-    ck.floor("R10a", n, 2, "uses of msa_seq.gaps in the merge phase")
+    ck.floor("R10a", n, 1, "uses of msa_seq.gaps in the merge phase")
 
 
 def r10b(ck, prog):
@@ -154,6 +154,17 @@ def _vectors(prog, M):
             a = c.args[2].strip(casts=True)
             if a.k == "DeclRefExpr":
                 out[a.d["did"]] = a.d["name"]
+    if not out:
+        # one private helper per group: the vector is the pointer argument the helper forwards to update_gaps
+        for cs in M.body.calls():
+            H = prog.functions.get(cs.callee) if cs.callee else None
+            if H is None or H.body is None or not H.static or H.file != M.file:
+                continue
+            fwd = {c.args[2].strip(casts=True).d.get("did") for c in H.body.calls("update_gaps") if len(c.args) >= 3 and c.args[2].strip(casts=True).k == "DeclRefExpr"}
+            for i, a in enumerate(cs.args):
+                a0 = a.strip(casts=True)
+                if i < len(H.params) and H.params[i]["did"] in fwd and a0.k == "DeclRefExpr" and a0.d.get("dk") == "Var":
+                    out[a0.d["did"]] = a0.d["name"]
     return out
 
 
@@ -269,13 +280,35 @@ def r10c(ck, prog):
     M = prog.fn("make_seq")
     E = Effects(prog)
     calls = list(M.body.calls("update_gaps"))
-    if len(calls) < 2:
-        where_else = sorted({f.name for f, c in prog.callers_of("update_gaps") if "/tests/" not in f.file})
-        raise AnalysisBroken("R10c: make_seq applies update_gaps %d time(s) itself (callers now: %s); uniform application to "
-                             "all members of both groups cannot be decided for this shape" % (len(calls), where_else))
     groups = {}
     pa, pb = M.params[1], M.params[2]
-    for c in calls:
+    work = [(M, c, {pa["name"]: "a", pb["name"]: "b"}, None) for c in calls]
+    if len(calls) < 2:
+        # one helper per group: make_seq calls H(msa, <a | b>, <vector>) and H applies update_gaps to the members of that group
+        for cs in M.body.calls():
+            H = prog.functions.get(cs.callee) if cs.callee else None
+            if H is None or H.body is None or not H.static or H.file != M.file or not list(H.body.calls("update_gaps")):
+                continue
+            gmap, vpar, vtxt = {}, None, None
+            for i, a in enumerate(cs.args):
+                a0 = a.strip(casts=True)
+                if i >= len(H.params) or a0.k != "DeclRefExpr":
+                    continue
+                if a0.d["did"] == pa["did"]:
+                    gmap[H.params[i]["name"]] = "a"
+                elif a0.d["did"] == pb["did"]:
+                    gmap[H.params[i]["name"]] = "b"
+                elif a0.ty.replace("const ", "").endswith("*") and a0.d.get("dk") == "Var":
+                    vpar, vtxt = H.params[i]["name"], a0.text()
+            if len(gmap) == 1 and vpar is not None:
+                for c in H.body.calls("update_gaps"):
+                    work.append((H, c, gmap, (vpar, vtxt)))
+        if len(work) < 2:
+            where_else = sorted({f.name for f, c in prog.callers_of("update_gaps") if "/tests/" not in f.file})
+            raise AnalysisBroken("R10c: make_seq applies update_gaps %d time(s) itself (callers now: %s); uniform application to "
+                                 "all members of both groups cannot be decided for this shape" % (len(calls), where_else))
+    M0 = M
+    for M, c, gmap, vinfo in work:
         where = site(prog, c, "update_gaps")
         loops = [x for x in c.ancestors() if x.k in ("ForStmt", "WhileStmt")]
         if not loops:
@@ -293,13 +326,18 @@ def r10c(ck, prog):
         seq1 = [e1[:-len("->gaps")]] if e1.endswith("->gaps") else []
         vec = c.args[2].strip(casts=True)
         grp = None
-        if ("sip[%s]" % pa["name"]) in e1:
-            grp = "a"
-        if ("sip[%s]" % pb["name"]) in e1:
-            grp = "b" if grp is None else None
+        gname = None
+        for pname, g_ in gmap.items():
+            if ("sip[%s]" % pname) in e1:
+                grp, gname = (g_, pname) if grp is None else (None, None)
+        vec_text = vec.text()
+        if vinfo is not None:
+            if vec_text != vinfo[0]:
+                ck.violation("R10c", "R10c/%s/vector" % M.name, where, "%s applies %s instead of the vector it was given (%s)" % (M.name, vec_text, vinfo[0]), prog.config)
+            vec_text = vinfo[1]
         init = lp.child("init")
         bound_txt = (init.text() if init is not None else "") + " " + (lp.child("cond").text() if lp.child("cond") is not None else "")
-        ck.inst("R10c", where, "group %s: update_gaps(%s, %s, %s) for %s" % (grp, c.args[0].text()[:40], c.args[1].text()[:40], vec.text(), bound_txt.strip()[:50]), prog.config)
+        ck.inst("R10c", where, "group %s%s: update_gaps(%s, %s, %s) for %s" % (grp, "" if M is M0 else " (in %s)" % M.name, c.args[0].text()[:40], c.args[1].text()[:40], vec_text, bound_txt.strip()[:50]), prog.config)
         if not seq0 or not seq1 or seq0[0] != seq1[0]:
             ck.violation("R10c", "R10c/make_seq/member-%s" % grp, where,
                          "update_gaps receives the length of %s but the gap counts of %s" % (seq0[:1], seq1[:1]), prog.config)
@@ -308,7 +346,6 @@ def r10c(ck, prog):
             continue
         from ..affine import loop_range
         rng = loop_range(lp)
-        gname = pa["name"] if grp == "a" else pb["name"]
         if rng is None:
             raise AnalysisBroken("R10c: the member loop at %s is not one of the recognised counting idioms" % lp.loc)
         var, lo, hi = rng
@@ -318,12 +355,13 @@ def r10c(ck, prog):
             ck.violation("R10c", "R10c/make_seq/coverage-%s" % grp, where,
                          "the loop over group %s visits members [%s, %s) instead of [0, nsip[%s]): some members do not receive "
                          "the new columns and the group is sheared" % (grp, lo, hi, grp), prog.config)
-        if ("sip[%s]" % (pa["name"] if grp == "a" else pb["name"])) not in e1:
+        if ("sip[%s]" % gname) not in e1:
             ck.violation("R10c", "R10c/make_seq/member-list-%s" % grp, where, "members are not taken from sip[%s]" % grp, prog.config)
-        groups.setdefault(grp, set()).add(vec.text())
+        groups.setdefault(grp, set()).add(vec_text)
         if any(not isinstance(r, bool) and r for r in [guards_in_loop(c, lp)]):
             ck.violation("R10c", "R10c/make_seq/conditional-%s" % grp, where,
                          "update_gaps is applied only to some members (%s)" % guards_in_loop(c, lp), prog.config)
+    M = M0
     if set(groups) != {"a", "b"}:
         ck.violation("R10c", "R10c/make_seq/groups", site(prog, M), "update_gaps is applied to groups %s only" % sorted(groups), prog.config)
     for g, vs in groups.items():
@@ -338,7 +376,7 @@ def r10c(ck, prog):
         if s.k in ("BinaryOperator", "CompoundAssignOperator") and (s.d["op"] == "=" or s.k == "CompoundAssignOperator"):
             t = s.kids[0].strip()
             if t.k == "ArraySubscriptExpr" and t.kids[0].strip(casts=True).k == "DeclRefExpr" and t.kids[0].strip(casts=True).d["did"] in vecs:
-                for c in calls:
+                for c in (calls if len(calls) >= 2 else [x for x in M.body.calls() if x.callee in {w_[0].name for w_ in work}]):
                     if cfg.reaches(cfg.position(c), cfg.position(s)):
                         ck.violation("R10c", "R10c/make_seq/vector-modified", site(prog, s),
                                      "%s is modified after it has been applied to some members" % t.kids[0].text(), prog.config)
